@@ -57,11 +57,13 @@ Lemma hist_length (s : ring) : length (hist s) = N s.
 Proof. unfold hist. rewrite map_length, seq_length. reflexivity. Qed.
 Lemma hd_hist (s : ring) : 0 < N s -> hd [] (hist s) = at_ s 1.
 Proof. unfold hist. destruct (N s) as [|n]; [lia|]. intros _. reflexivity. Qed.
-Lemma removelast_repeat {X} (x : X) n : removelast (repeat x n) = repeat x (n - 1).
+Lemma removelast_repeat_S {X} (x : X) n : removelast (repeat x (S n)) = repeat x n.
 Proof.
-  induction n as [|n IH]; [reflexivity|]. cbn [repeat]. destruct n as [|n]; [reflexivity|].
-  cbn [repeat] in *. cbn [removelast]. rewrite IH. cbn. rewrite Nat.sub_0_r. reflexivity.
+  induction n as [|n IH]; [reflexivity|].
+  change (removelast (repeat x (S (S n)))) with (x :: removelast (repeat x (S n))). rewrite IH. reflexivity.
 Qed.
+Lemma removelast_repeat {X} (x : X) n : removelast (repeat x n) = repeat x (n - 1).
+Proof. destruct n as [|n]; [reflexivity|]. rewrite removelast_repeat_S. f_equal. lia. Qed.
 
 (* ------------------------------------------------------------------ forward *)
 (* One theorem for the three situations (first observation with storage creation, first observation
@@ -147,7 +149,7 @@ Proof.
     rewrite (nth_map_seq rcast (kfill K)) by lia. f_equal.
     unfold unwind, _unwind_ptr. rewrite Hp, Hlen.
     replace ((Z.of_nat 0 - (Z.of_nat i + 1)) mod Z.of_nat (N s))%Z with (Z.of_nat (N s) - 1 - Z.of_nat i)%Z; [lia|].
-    symmetry. apply Z.mod_unique with (q := (-1)%Z); lia.
+    apply Z.mod_unique with (q := (-1)%Z); lia.
 Qed.
 Lemma hist_ext (s s' : ring) : N s' = N s -> (forall k, at_ s' k = at_ s k) -> hist s' = hist s.
 Proof. intros HN H. unfold hist. rewrite HN. apply map_ext. intros k. apply H. Qed.
@@ -166,9 +168,10 @@ Proof.
   assert (Hh : hist s' = hist (rrec r)) by (apply hist_ext; assumption).
   split.
   { f_equal. unfold stored_shape. rewrite Est. f_equal. rewrite rev_rows_hist by assumption. exact Hh. }
-  repeat split; try assumption. unfold stored_shape. cbn. rewrite Est, Est'. reflexivity.
+  split; [exact Hwf'|]. split; [exact Hf'|]. split; [exact HN'|]. split; [exact Hh|].
+  unfold stored_shape, set_rec. cbn [rrec]. rewrite Est, Est'. reflexivity.
 Qed.
-Theorem dump_initial r : rinit r = true -> rd_dump r = ROk r RNone.
+Theorem dump_initial (r : reducer) : rinit r = true -> rd_dump r = ROk r RNone.
 Proof. intros Ei. unfold rd_dump. rewrite Ei. reflexivity. Qed.
 
 (* ------------------------------------------------------------------ clear *)
@@ -201,7 +204,7 @@ Proof.
   exists s'. unfold rd_clear.
   assert (Hrec : rrec (if kcounts K then set_count r 0%Z else r) = rrec r) by (destruct (kcounts K); reflexivity).
   rewrite Hrec, Hr. split; [reflexivity|]. split; [exact Hwf'|]. split; [unfold full; rewrite Est'; exact I|].
-  split; [exact HN'|]. split; [unfold stored_shape; cbn; rewrite Est, Est'; reflexivity|]. split.
+  split; [exact HN'|]. split; [unfold stored_shape, set_rec; cbn [rrec]; rewrite Est, Est'; reflexivity|]. split.
   - unfold hist. apply Forall_forall. intros row Hin. apply in_map_iff in Hin. destruct Hin as (k & <- & _).
     rewrite Hat. apply Forall_forall. intros x Hx. apply in_map_iff in Hx. destruct Hx as (y & <- & _). reflexivity.
   - intros k. rewrite Hat, map_length. reflexivity.
@@ -233,20 +236,22 @@ Theorem inplace_eq r sh obs : rwf r -> 0 < N (rrec r) ->
     end.
 Proof.
   intros (Hwf & Hfull) Hn. pose proof Hwf as (_ & Hp & _).
-  unfold forward. cbn [rinit set_inplace rrec rinpl rcount].
-  assert (Hpush : forall s o, s = rrec r \/ (ignored (rrec r) = true /\ s = initialize (kfill K) (rrec r) sh tt) ->
+  destruct r as [dt dur incl inpl dec cnt ini rec]. cbn [rrec rinit] in *.
+  assert (Hpush : forall s o, s = rec \/ (ignored rec = true /\ s = initialize (kfill K) rec sh tt) ->
                               rpush s o true = rpush s o false).
   { intros s o [->|(Hig & ->)].
     - apply push_inplace_eq; auto.
     - apply push_inplace_eq.
-      + unfold initialize. destruct (st (rrec r)); exact Hn.
-      + unfold initialize. destruct (st (rrec r)); cbn; exact Hn.
-      + intros _. unfold initialize, wf. destruct (st (rrec r)); cbn; rewrite repeat_length; lia. }
-  destruct (kcounts K); destruct (rinit r); cbn [negb rrec set_count rinit rinpl];
+      + unfold initialize. destruct (st rec); exact Hn.
+      + unfold initialize. destruct (st rec); cbn; exact Hn.
+      + intros _. unfold initialize, wf. destruct (st rec); cbn; rewrite repeat_length; lia. }
+  unfold forward, zipfold, set_inplace, set_count, set_rec, set_init.
+  cbn [rdt rdur rincl rinpl rdecay rcount rinit rrec].
+  destruct (kcounts K); destruct ini; cbn [negb rdt rdur rincl rinpl rdecay rcount rinit rrec];
     repeat match goal with
-    | |- context [rpeek (rrec r)] => destruct (rpeek (rrec r)) as [? [| | |? ? ?|]|]
+    | |- context [rpeek rec] => destruct (rpeek rec) as [? [| | |? ? ?|]|]
     | |- context [kcheck K && ?b] => destruct (kcheck K && b)
-    | |- context [ignored (rrec r)] => let E := fresh "Eig" in destruct (ignored (rrec r)) eqn:E
+    | |- context [ignored rec] => let E := fresh "Eig" in destruct (ignored rec) eqn:E
     end;
     try reflexivity;
     try (rewrite Hpush by (left; reflexivity); match goal with |- context [rpush ?s ?o false] => destruct (rpush s o false) end; reflexivity);
@@ -255,7 +260,7 @@ Qed.
 
 (* ------------------------------------------------------------------ runs of observations *)
 (* invariant preservation, so that the step theorems can be chained *)
-Lemma forward_post r sh obs rec' : rwf r ->
+Lemma forward_post (r : reducer) rec' : rwf r ->
   wf rec' -> full rec' -> rwf (set_init (set_rec (bump r) rec') false).
 Proof. intros _ Hw Hf. split; cbn; auto. Qed.
 
@@ -278,16 +283,153 @@ Proof.
   destruct n as [|n]; [discriminate|]. cbn [firstn]. change (removelast (y :: z :: l)) with (y :: removelast (z :: l)).
   f_equal. apply IH; [exact Hl|lia].
 Qed.
-Lemma firstn_app_firstn {X} (a b : list X) n : firstn n (a ++ firstn n b) = firstn n (a ++ b).
+Lemma firstn_app_firstn_le {X} (a b : list X) n m : n <= m -> firstn n (a ++ firstn m b) = firstn n (a ++ b).
 Proof.
-  revert n. induction a as [|x a IH]; intros n; cbn [app].
-  - apply firstn_firstn_min.
-  - destruct n as [|n]; [reflexivity|]. cbn [firstn]. f_equal.
-    rewrite <- IH. clear IH. revert n. induction a as [|y a IHa]; intros n; cbn [app].
-    + rewrite !firstn_firstn. f_equal. lia.
-    + destruct n as [|n]; [reflexivity|]. cbn [firstn]. f_equal. rewrite IHa.
-      clear. revert n. induction a as [|z a IH]; intros n; cbn [app].
-      * rewrite !firstn_firstn. f_equal. lia.
-      * destruct n as [|n]; [reflexivity|]. cbn [firstn]. f_equal. apply IH.
+  revert n. induction a as [|x a IH]; intros n Hnm; cbn [app].
+  - rewrite firstn_firstn. f_equal. lia.
+  - destruct n as [|n]; [reflexivity|]. cbn [firstn]. f_equal. apply IH. lia.
 Qed.
+Lemma firstn_app_firstn {X} (a b : list X) n : firstn n (a ++ firstn n b) = firstn n (a ++ b).
+Proof. apply firstn_app_firstn_le. lia. Qed.
+
+Definition final (r : reducer) (ops : list (@rop M Obs)) : reducer := fst (rrun M K r ops).
+Definition outputs (r : reducer) (ops : list (@rop M Obs)) : list (@rres M A) := snd (rrun M K r ops).
+Lemma final_cons r o ops : final r (o :: ops) = final (res_state (rstep M K r o)) ops.
+Proof. unfold final. cbn [rrun]. destruct (rrun M K (res_state (rstep M K r o)) ops). reflexivity. Qed.
+Lemma outputs_cons r o ops : outputs r (o :: ops) = rstep M K r o :: outputs (res_state (rstep M K r o)) ops.
+Proof. unfold outputs. cbn [rrun]. destruct (rrun M K (res_state (rstep M K r o)) ops). reflexivity. Qed.
+
+Lemma zipfold_ext (r r' : reducer) o p : rdt r = rdt r' -> rdecay r = rdecay r' -> rcount r = rcount r' ->
+  zipfold r o p = zipfold r' o p.
+Proof. intros H1 H2 H3. unfold zipfold. rewrite H1, H2, H3. reflexivity. Qed.
+Lemma bump_fields (r r' : reducer) : rdt r = rdt r' -> rdecay r = rdecay r' -> rcount r = rcount r' ->
+  rdt (bump r) = rdt (bump r') /\ rdecay (bump r) = rdecay (bump r') /\ rcount (bump r) = rcount (bump r').
+Proof. intros H1 H2 H3. unfold bump. destruct (kcounts K); cbn; rewrite ?H1, ?H2, ?H3; auto. Qed.
+Lemma fold_rows_ext obs : forall (r r' : reducer) p, rdt r = rdt r' -> rdecay r = rdecay r' -> rcount r = rcount r' ->
+  fold_rows r p obs = fold_rows r' p obs.
+Proof.
+  induction obs as [|o tl IH]; intros r r' p H1 H2 H3; [reflexivity|]. cbn [fold_rows].
+  destruct (bump_fields r r' H1 H2 H3) as (B1 & B2 & B3).
+  rewrite (zipfold_ext (bump r) (bump r') o p B1 B2 B3). f_equal. apply IH; assumption.
+Qed.
+
+Definition all_ok (outs : list (@rres M A)) : Prop := Forall (fun x => exists r, x = ROk r RUnit) outs.
+
+(* later observations: the record after a run of observations is the list of folded states, newest first,
+   followed by what was recorded before, cut to the record size *)
+Lemma run_forwards_noninitial sh obs : forall r, rwf r -> 0 < N (rrec r) -> shape_ok r sh -> rinit r = false ->
+  let r' := final r (fwd_ops sh obs) in
+  rwf r' /\ N (rrec r') = N (rrec r) /\ rinit r' = false /\ stored_shape r' = stored_shape r /\
+  same_cfg r r' /\ all_ok (outputs r (fwd_ops sh obs)) /\
+  rhist r' = firstn (N (rrec r)) (fold_rows r (Some (hd [] (rhist r))) obs ++ rhist r).
+Proof.
+  induction obs as [|o tl IH]; intros r Hwf Hn Hsh Ei.
+  - unfold final, outputs, fwd_ops. cbn [map rrun fst snd fold_rows app].
+    split; [exact Hwf|]. split; [reflexivity|]. split; [exact Ei|]. split; [reflexivity|].
+    split; [unfold same_cfg; auto|]. split; [constructor|].
+    unfold rhist. rewrite <- (hist_length (rrec r)) at 1. symmetry. apply firstn_all.
+  - cbn zeta. unfold fwd_ops. cbn [map]. rewrite final_cons, outputs_cons. cbn [rstep].
+    destruct (forward_spec r sh o Hwf Hn Hsh) as (rec' & Hfw & Hwf' & Hf' & HN' & Est' & Hh).
+    rewrite Hfw. cbn [res_state]. set (r1 := set_init (set_rec (bump r) rec') false).
+    assert (Hwf1 : rwf r1) by (split; cbn; auto).
+    assert (HN1 : N (rrec r1) = N (rrec r)) by exact HN'.
+    assert (Hshape1 : stored_shape r1 = stored_shape r).
+    { unfold stored_shape at 1. cbn [r1 set_init set_rec rrec]. rewrite Est'.
+      destruct (stored_shape r) eqn:E; [reflexivity|].
+      exfalso. unfold stored_shape in E. destruct Hwf as (_ & Hfull). specialize (Hfull Ei). unfold full in Hfull.
+      destruct (st (rrec r)); try contradiction; discriminate. }
+    assert (Hsh1 : shape_ok r1 sh) by (unfold shape_ok; rewrite Hshape1; exact Hsh).
+    destruct (IH r1 Hwf1 ltac:(lia) Hsh1 eq_refl) as (Hw2 & HN2 & Hi2 & Hs2 & Hc2 & Hok2 & Hh2).
+    fold (fwd_ops sh tl). split; [exact Hw2|]. split; [lia|]. split; [exact Hi2|]. split; [congruence|]. split.
+    { destruct Hc2 as (c1 & c2 & c3 & c4 & c5). pose proof (same_cfg_bump r) as (b1 & b2 & b3 & b4 & b5).
+      unfold same_cfg. cbn [r1 set_init set_rec rdt rdur rincl rinpl rdecay] in *. repeat split; congruence. }
+    split. { constructor; [eexists; reflexivity|exact Hok2]. }
+    rewrite Hh2, HN1. cbn [fold_rows].
+    assert (Ehist1 : rhist r1 = zipfold (bump r) o (prior r) :: removelast (rhist r)).
+    { unfold rhist at 1. cbn [r1 set_init set_rec rrec]. rewrite Hh. unfold base.
+      assert (Eig : ignored (rrec r) = false) by (rewrite <- full_ignored; apply Hwf; exact Ei). rewrite Eig. reflexivity. }
+    rewrite Ehist1. cbn [hd]. unfold prior. rewrite Ei.
+    rewrite (fold_rows_ext tl r1 (bump r)) by reflexivity.
+    rewrite (firstn_cons_removelast _ (rhist r) (N (rrec r))) by (try apply hist_length; exact Hn).
+    rewrite firstn_app_firstn, <- app_assoc. reflexivity.
+Qed.
+
+(* a run of observations from a state that has not folded anything yet (fresh, or cleared) *)
+Theorem run_forwards sh o obs : forall r, rwf r -> 0 < N (rrec r) -> shape_ok r sh -> rinit r = true ->
+  let r' := final r (fwd_ops sh (o :: obs)) in
+  rwf r' /\ N (rrec r') = N (rrec r) /\ rinit r' = false /\
+  stored_shape r' = Some (match stored_shape r with Some s => s | None => sh end) /\
+  same_cfg r r' /\ all_ok (outputs r (fwd_ops sh (o :: obs))) /\
+  rhist r' = firstn (N (rrec r)) (fold_rows r None (o :: obs) ++ base r sh).
+Proof.
+  intros r Hwf Hn Hsh Ei. cbn zeta. unfold fwd_ops. cbn [map]. rewrite final_cons, outputs_cons. cbn [rstep].
+  destruct (forward_spec r sh o Hwf Hn Hsh) as (rec' & Hfw & Hwf' & Hf' & HN' & Est' & Hh).
+  rewrite Hfw. cbn [res_state]. set (r1 := set_init (set_rec (bump r) rec') false).
+  assert (Hwf1 : rwf r1) by (split; cbn; auto).
+  assert (HN1 : N (rrec r1) = N (rrec r)) by exact HN'.
+  assert (Hshape1 : stored_shape r1 = Some (match stored_shape r with Some s => s | None => sh end)).
+  { unfold stored_shape at 1. cbn [r1 set_init set_rec rrec]. rewrite Est'. reflexivity. }
+  assert (Hsh1 : shape_ok r1 sh).
+  { unfold shape_ok. rewrite Hshape1. unfold shape_ok in Hsh. destruct (stored_shape r); [exact Hsh|apply shape_eqb_refl]. }
+  destruct (run_forwards_noninitial sh obs r1 Hwf1 ltac:(lia) Hsh1 eq_refl) as (Hw2 & HN2 & Hi2 & Hs2 & Hc2 & Hok2 & Hh2).
+  fold (fwd_ops sh obs). split; [exact Hw2|]. split; [lia|]. split; [exact Hi2|]. split; [congruence|]. split.
+  { destruct Hc2 as (c1 & c2 & c3 & c4 & c5). pose proof (same_cfg_bump r) as (b1 & b2 & b3 & b4 & b5).
+    unfold same_cfg. cbn [r1 set_init set_rec rdt rdur rincl rinpl rdecay] in *. repeat split; congruence. }
+  split. { constructor; [eexists; reflexivity|exact Hok2]. }
+  rewrite Hh2, HN1. cbn [fold_rows].
+  assert (Ehist1 : rhist r1 = zipfold (bump r) o None :: removelast (base r sh)).
+  { unfold rhist at 1. cbn [r1 set_init set_rec rrec]. rewrite Hh. unfold prior. rewrite Ei. reflexivity. }
+  rewrite Ehist1. cbn [hd].
+  rewrite (fold_rows_ext obs r1 (bump r)) by reflexivity.
+  assert (Hbl : length (base r sh) = N (rrec r)).
+  { unfold base. destruct (ignored (rrec r)); [apply repeat_length|apply hist_length]. }
+  rewrite (firstn_cons_removelast _ (base r sh) (N (rrec r)) Hbl Hn).
+  rewrite firstn_app_firstn, <- app_assoc. reflexivity.
+Qed.
+
+(* the k-th newest folded state is the state reached after all but the last k observations *)
+Lemma fold_rows_app l1 : forall (r : reducer) p l2,
+  exists r' p', fold_rows r p (l1 ++ l2) = fold_rows r' p' l2 ++ fold_rows r p l1 /\
+                rdt r' = rdt r /\ rdecay r' = rdecay r.
+Proof.
+  induction l1 as [|o l1 IH]; intros r p l2; cbn [app fold_rows].
+  - exists r, p. rewrite app_nil_r. auto.
+  - destruct (IH (bump r) (Some (zipfold (bump r) o p)) l2) as (r' & p' & E & H1 & H2).
+    exists r', p'. rewrite E, app_assoc. pose proof (same_cfg_bump r) as (b1 & _ & _ & _ & b5).
+    split; [reflexivity|]. split; congruence.
+Qed.
+Lemma fold_rows_length l : forall (r : reducer) p, length (fold_rows r p l) = length l.
+Proof. induction l as [|o l IH]; intros r p; cbn [fold_rows length]; [reflexivity|]. rewrite app_length, IH. cbn. lia. Qed.
+Theorem fold_rows_prefix (r : reducer) p l k : k < length l ->
+  nth k (fold_rows r p l) [] = hd [] (fold_rows r p (firstn (length l - k) l)).
+Proof.
+  intros Hk. rewrite <- (firstn_skipn (length l - k) l) at 1.
+  destruct (fold_rows_app (firstn (length l - k) l) r p (skipn (length l - k) l)) as (r' & p' & E & _). rewrite E.
+  assert (Hl : length (fold_rows r' p' (skipn (length l - k) l)) = k) by (rewrite fold_rows_length, skipn_length; lia).
+  rewrite app_nth2 by lia. rewrite Hl, Nat.sub_diag.
+  destruct (fold_rows r p (firstn (length l - k) l)); reflexivity.
+Qed.
+
 End MachineProofs.
+
+Arguments bump {M A Obs} K r.
+Arguments rhist {M A} r.
+Arguments rwf {M A} r.
+Arguments stored_shape {M A} r.
+Arguments shape_ok {M A} r sh.
+Arguments same_cfg {M A} r r'.
+Arguments prior {M A} r.
+Arguments base {M A Obs} K r sh.
+Arguments rinv {M A Obs} K r.
+Arguments fold_rows {M A Obs} K r p obs.
+Arguments final {M A Obs} K r ops.
+Arguments outputs {M A Obs} K r ops.
+Arguments fwd_ops {M Obs} sh obs.
+Arguments all_ok {M A} outs.
+Arguments same_cfg_bump {M A Obs} K r.
+Arguments fold_rows_length {M A Obs} K l r p.
+Arguments fold_rows_prefix {M A Obs} K r p l k _.
+Arguments run_forwards {M A Obs} K sh o obs r _ _ _ _.
+Arguments run_forwards_noninitial {M A Obs} K sh obs r _ _ _ _.
+Arguments forward_spec {M A Obs} K r sh obs _ _ _.
+Arguments hist_length {A} s.
